@@ -48,6 +48,8 @@ pub fn confirm(w: &Value) -> Value {
                 }
             }
         }
+        #[cfg(feature = "physics")]
+        "c09_pad" => crate::phys::confirm_pad(w),
         "fifo" => native::confirm_fifo(w),
         "chunks" => native::confirm_chunks(w),
         _ => json!({"error": format!("unknown op {op}")}),
